@@ -19,9 +19,9 @@ import io
 import itertools
 
 PROP = 'C15'
-TARGETS = ['T15a', 'T15b', 'T15c', 'T15d', 'T15e', 'T15f', 'T15g', 'T15h', 'T15i']
+TARGETS = ['T15a', 'T15b', 'T15c', 'T15d', 'T15e', 'T15f', 'T15g', 'T15h', 'T15i', 'T15j']
 LEAN_MODULES = ['HdVerif.Props.C15']
-MODEL_MODULES = ['HdVerif.Model.SREvidence', 'HdVerif.Model.SRDocument']
+MODEL_MODULES = ['HdVerif.Model.SREvidence', 'HdVerif.Model.SRDocument', 'HdVerif.Model.SRTree']
 NAMESPACE = 'HdVerif.C15'
 DRIVER = 'Drivers/C15.lean'
 RULE = ('one case = one (content tree, evidence list, document class, flags) construction (+ write/srread) or one '
@@ -938,6 +938,252 @@ def _impl_doc(doc):
                                  if 'ReferencedRequestSequence' in doc else None)})
 
 
+# ------------------------------------------------------------------ raw trees (model: Model/SRTree.lean)
+# what the standard requires of a content item of each value type, as far as a data set can be checked for it without looking
+# at the values (PS3.3 C.17.3 / C.18): the harness's own table, not read from the code
+REQUIRED_ATTRS = {'CODE': ['ConceptCodeSequence'], 'COMPOSITE': ['ReferencedSOPSequence'], 'CONTAINER': ['ContinuityOfContent'],
+                  'DATE': ['Date'], 'DATETIME': ['DateTime'], 'IMAGE': ['ReferencedSOPSequence'], 'NUM': ['MeasuredValueSequence'],
+                  'PNAME': ['PersonName'], 'SCOORD': ['GraphicType', 'GraphicData'], 'SCOORD3D': ['GraphicType', 'GraphicData'],
+                  'TCOORD': ['TemporalRangeType'], 'TIME': ['Time'], 'TEXT': ['TextValue'], 'UIDREF': ['UID'],
+                  'WAVEFORM': ['ReferencedSOPSequence']}
+NAME_OPTIONAL = ('COMPOSITE', 'IMAGE', 'SCOORD', 'SCOORD3D', 'TCOORD', 'WAVEFORM')
+RAW_FAULTS = ['none', 'none', 'drop-required', 'drop-name', 'drop-name', 'drop-relationship', 'bogus-value-type', 'drop-value-type',
+              'root-relationship', 'drop-required+drop-name']
+
+
+def _attr_digest(elem):
+    """opaque canonical value of one attribute for the model; a concept name as value|scheme|meaning (the model knows the
+    default name in that form)"""
+    import hashlib
+    if elem.keyword == 'ConceptNameCodeSequence' and len(elem.value) == 1:
+        x = elem.value[0]
+        v = next((str(x[k].value) for k in ('CodeValue', 'LongCodeValue', 'URNCodeValue') if k in x), '?')
+        extra = sorted(e.keyword for e in x if e.keyword not in ('CodeValue', 'LongCodeValue', 'URNCodeValue', 'CodingSchemeDesignator', 'CodeMeaning'))
+        base = f'{v}|{x.get("CodingSchemeDesignator")}|{x.get("CodeMeaning")}'
+        return base if not extra else base + '|' + hashlib.md5(repr(canon(x)).encode()).hexdigest()[:8]
+    if elem.keyword in ('ValueType', 'RelationshipType', 'ContinuityOfContent'):
+        return str(elem.value)
+    import pydicom
+    one = pydicom.Dataset()
+    one[elem.tag] = elem
+    return hashlib.md5(repr(canon(one)).encode()).hexdigest()[:12]
+
+
+def _plain(ds):
+    """the same data set as plain pydicom objects (Dataset / Sequence), as a third party's reader would hand it over"""
+    import pydicom
+    from pydicom.dataelem import DataElement
+    out = pydicom.Dataset()
+    for e in ds:
+        if e.VR == 'SQ':
+            out[e.tag] = DataElement(e.tag, 'SQ', pydicom.Sequence([_plain(x) for x in (e.value or [])]))
+        else:
+            out[e.tag] = copy.deepcopy(e)
+    return out
+
+
+def _node_json(ds):
+    return {'attrs': [[e.keyword or str(e.tag), _attr_digest(e)] for e in ds if e.keyword != 'ContentSequence'],
+            'has_seq': 'ContentSequence' in ds,
+            'children': [_node_json(x) for x in ds.ContentSequence] if 'ContentSequence' in ds else []}
+
+
+def _flat_items(ds):
+    out = [sorted([e.keyword or str(e.tag), _attr_digest(e)] for e in ds if e.keyword != 'ContentSequence')]
+    for x in (ds.ContentSequence if 'ContentSequence' in ds else []):
+        out += _flat_items(x)
+    return out
+
+
+def _first_fault(ds, is_root=True):
+    """independent statement of what makes a tree of data sets unacceptable as SR content: the first offending data set in
+    document order, or None"""
+    vt = ds.get('ValueType')
+    if vt is None:
+        return 'no-value-type'
+    if str(vt) not in REQUIRED_ATTRS:
+        return 'unknown-value-type'
+    if not is_root and 'RelationshipType' not in ds:
+        return 'no-relationship'
+    if any(k not in ds for k in REQUIRED_ATTRS[str(vt)]):
+        return 'required-attribute-missing'
+    if 'ConceptNameCodeSequence' not in ds and str(vt) not in NAME_OPTIONAL:
+        return 'no-concept-name'
+    for x in (ds.ContentSequence if 'ContentSequence' in ds else []):
+        f = _first_fault(x, False)
+        if f:
+            return f
+    return None
+
+
+def _raw_case(ctx, idx):
+    """a valid constructed tree, then 0-2 faults planted on data sets at random depth (the items stay the constructors'
+    objects: the document constructor takes any data set)"""
+    from gen import srdocs
+    r = ctx.rng('raw', idx)
+    pool = srdocs.instance_pool(r, max_studies=2)
+    depth = r.choice([1, 2, 2, 3, 3, 4])
+    root, spec = srdocs.content_tree(r, pool, depth=depth, scoord3d=r.random() < 0.4, foreign=0.0, code_rng=ctx.rng('rawcodes', idx))
+    root = _plain(root)
+    nodes = []
+
+    def collect(item, d):
+        nodes.append((item, d))
+        for ch in (item.ContentSequence if 'ContentSequence' in item else []):
+            collect(ch, d + 1)
+    collect(root, 0)
+    fault = RAW_FAULTS[idx % len(RAW_FAULTS)] if idx < 4 * len(RAW_FAULTS) else r.choice(RAW_FAULTS)
+    planted = []
+    for f in fault.split('+'):
+        below = [(n, d) for n, d in nodes if d > 0]
+        if f == 'none' or (not below and f != 'root-relationship'):
+            continue
+        if f == 'root-relationship':
+            root.RelationshipType = 'CONTAINS'
+            planted.append((f, 0, 'CONTAINER'))
+            continue
+        if f == 'drop-name':
+            # half of the time on an item that may lack a name (accepted, default name), else on any item
+            opt = [(n, d) for n, d in below if str(n.ValueType) in NAME_OPTIONAL]
+            n, d = r.choice(opt) if (opt and r.random() < 0.6) else r.choice(nodes)
+            if 'ConceptNameCodeSequence' in n:
+                del n.ConceptNameCodeSequence
+        elif f == 'drop-required':
+            n, d = r.choice(nodes)
+            kws = [k for k in REQUIRED_ATTRS.get(str(n.get('ValueType')), []) if k in n]
+            if kws:
+                delattr(n, r.choice(kws))
+        elif f == 'drop-relationship':
+            n, d = r.choice(below)
+            if 'RelationshipType' in n:
+                del n.RelationshipType
+        elif f == 'bogus-value-type':
+            n, d = r.choice(nodes)
+            n.ValueType = r.choice(['BOGUS', 'container', 'NUMERIC'])
+        elif f == 'drop-value-type':
+            n, d = r.choice(nodes)
+            del n.ValueType
+        planted.append((f, d, str(n.get('ValueType'))))
+    return {'idx': idx, 'pool': pool, 'root': root, 'fault': fault, 'planted': planted, 'depth': depth}
+
+
+def _check_raw(ctx, c, reqs, pending):
+    import highdicom as hd
+    import pydicom
+    root = c['root']
+    case = {'stream': 'raw', 'seed': ctx.seed, 'idx': c['idx'], 'fault': c['fault'], 'planted': c['planted']}
+    why = _first_fault(root)
+    if why is None and 'RelationshipType' in root:
+        why = 'root-with-relationship'
+    given = copy.deepcopy(root)
+    before = canon(root)
+    node = _node_json(root)
+    own = [['SOPClassUID', 'x'], ['SOPInstanceUID', 'x'], ['Modality', 'x'], ['CompletionFlag', 'x'], ['VerificationFlag', 'x']]
+    reqs.append(('convertTree', {'tree': node, 'own': own}))
+
+    def build():
+        return hd.sr.Comprehensive3DSR(evidence=[p['ds'] for p in c['pool']], content=root,
+                                       series_instance_uid='1.2.826.0.1.3680043.8.498.1', series_number=1,
+                                       sop_instance_uid='1.2.826.0.1.3680043.8.498.1.1', instance_number=1, manufacturer='verif')
+    res = _call(build)
+    ok = res[0] == 'ok'
+    ctx.case(sample=case if c['idx'] % 97 == 0 else None, path='raw-tree', raw_fault=c['fault'], raw_expected=why or 'accept',
+             raw_outcome=('ok' if ok else res[2].split(':')[0]),
+             nontrivial_key=('raw', c['fault'], tuple(c['planted']), ok))
+    for f, d, vt in c['planted']:
+        ctx.hist('raw_planted', f'{f}@depth{min(d, 4)}/{vt}')
+    if canon(root) != before:
+        ctx.fail(case, 'the content tree handed in was modified by the constructor', site='sr.ctor/input-mutated')
+    if why:
+        if ok:
+            ctx.fail(case, f'document built from a tree with an unacceptable data set: {why}', site='sr.ctor/refusal')
+        pending.append((case, ('ok', None) if ok else ('err', res[1]), 'raw'))
+        return
+    if not ok:
+        ctx.fail(case, f'document of acceptable data sets refused: {res[2]}', site='sr.ctor/accept')
+        pending.append((case, ('err', res[1]), 'raw'))
+        return
+    doc = res[1]
+    # ---- oracle: evidence (every IMAGE / COMPOSITE data set at any depth, named or not) and the search on the GIVEN tree
+    def refs_of(ds_):
+        out_ = []
+        for x in (ds_.ContentSequence if 'ContentSequence' in ds_ else []):
+            if str(x.ValueType) in ('IMAGE', 'COMPOSITE'):
+                out_.append(str(x.ReferencedSOPSequence[0].ReferencedSOPInstanceUID))
+            out_ += refs_of(x)
+        return out_
+    ref_uids = set(refs_of(given))
+    first = {}
+    for p_ in c['pool']:
+        first.setdefault(p_['inst'], (p_['study'], p_['series'], p_['inst'], p_['cls']))
+    _check_partition(ctx, case, 'collect_evidence', flatten_seq(doc.get('CurrentRequestedProcedureEvidenceSequence', [])),
+                     flatten_seq(doc.get('PertinentOtherEvidenceSequence', [])), {first[u] for u in ref_uids if u in first},
+                     {row for u, row in first.items() if u not in ref_uids}, True)
+
+    def all_items(ds_):
+        out_ = []
+        for x in (ds_.ContentSequence if 'ContentSequence' in ds_ else []):
+            out_.append(x)
+            out_ += all_items(x)
+        return out_
+    items_given = all_items(root)
+    src = hd.sr.CodedConcept(value='260753009', scheme_designator='SCT', meaning='Source')
+    for q_name, q_vt in ((None, 'IMAGE'), (src, None), (None, None)):
+        fr = _call(hd.sr.utils.find_content_items, root, name=q_name, value_type=q_vt, recursive=True)
+
+        def nm(x):
+            if 'ConceptNameCodeSequence' not in x:
+                return ('260753009', 'SCT')      # the name the parsers give an item without one
+            y = x.ConceptNameCodeSequence[0]
+            return (next((str(y[k].value) for k in ('CodeValue', 'LongCodeValue', 'URNCodeValue') if k in y), None), str(y.CodingSchemeDesignator))
+        want_ = [id(x) for x in items_given if (q_vt is None or str(x.ValueType) == q_vt) and (q_name is None or nm(x) == ('260753009', 'SCT'))]
+        ctx.case(path='raw-tree/find', find_nameless=('name' if q_name is not None else 'vt' if q_vt else 'all'))
+        if fr[0] != 'ok' or [id(x) for x in fr[1]] != want_:
+            ctx.fail(dict(case, query={'name': 'Source' if q_name is not None else None, 'vt': q_vt}),
+                     {'what': 'find_content_items on the given tree is not the matching items in document order (an item without '
+                              'concept name carries the name the parsers give it)',
+                      'got': fr[2] if fr[0] != 'ok' else len(fr[1]), 'want': len(want_)}, site='find_content_items')
+    # ---- oracle: the tree is the given tree; a data set without concept name (allowed for its value type) got the default name
+    want = copy.deepcopy(given)
+
+    def add_names(ds_):
+        if 'ConceptNameCodeSequence' not in ds_:
+            it = pydicom.Dataset()
+            it.CodeValue, it.CodingSchemeDesignator, it.CodeMeaning = '260753009', 'SCT', 'Source'
+            ds_.ConceptNameCodeSequence = [it]
+        for x in (ds_.ContentSequence if 'ContentSequence' in ds_ else []):
+            add_names(x)
+    add_names(want)
+    want_c = canon(want)
+    observed = {'items': _flat_items(doc.content[0]) if len(doc.content) == 1 else None, 'parsed': None}
+    if len(doc.content) != 1 or canon(doc.content[0]) != want_c:
+        ctx.fail(case, 'document .content differs from the tree it was given (default concept names apart)', site='sr.content')
+    if canon(_root_part(doc)) != want_c:
+        ctx.fail(case, 'root content attributes of the document data set differ from the tree it was given', site='sr.dataset')
+    bio = io.BytesIO()
+    w = _call(doc.save_as, bio)
+    if w[0] != 'ok':
+        ctx.fail(case, f'document cannot be written: {w[2]}', site='sr.write')
+    else:
+        written = pydicom.dcmread(io.BytesIO(bio.getvalue()))
+        if canon(_root_part(written)) != want_c:
+            ctx.fail(case, 'the content tree in the written file differs from the tree the document was given', site='sr.write/content')
+        for label, fn in (('srread', lambda: hd.sr.srread(io.BytesIO(bio.getvalue()))),
+                          ('from_dataset', lambda: hd.sr.Comprehensive3DSR.from_dataset(pydicom.dcmread(io.BytesIO(bio.getvalue())), copy=True)),
+                          ('from_dataset(copy=False)', lambda: hd.sr.Comprehensive3DSR.from_dataset(pydicom.dcmread(io.BytesIO(bio.getvalue())), copy=False))):
+            rd = _call(fn)
+            ctx.case(path='raw-tree/' + label)
+            if rd[0] != 'ok':
+                ctx.fail(case, f'{label} refused a written document: {rd[2]}', site=label)
+                observed['parsed'] = ('err', rd[1])
+                continue
+            if len(rd[1].content) != 1 or canon(rd[1].content[0]) != want_c:
+                ctx.fail(case, f'{label}(...).content differs from the tree the document was given', site=label + '/content')
+            if label == 'srread':
+                observed['parsed'] = ('ok', _flat_items(rd[1].content[0]))
+    pending.append((case, ('ok', observed), 'raw'))
+
+
 # ------------------------------------------------------------------ key object selection documents
 def _ko_case(ctx, idx):
     from gen import srdocs
@@ -1339,6 +1585,23 @@ def _compare(ctx, pending, answers):
             ctx.disagree('L0', case, impl, ans, 'model protocol error')
             continue
         model = ('ok', ans['ok']) if 'ok' in ans else ('err', ans['err'])
+        if kind == 'raw' and impl[0] == 'ok' == model[0] and impl[1] is not None:
+            # the tree the document holds, data set by data set in document order (attributes as a set), and the tree the
+            # parser exposes for the written document
+            m_items = [sorted(x) for x in model[1]['items']]
+            if impl[1]['items'] != m_items:
+                diff = [(a, b) for a, b in itertools.zip_longest(impl[1]['items'] or [], m_items) if a != b][:2]
+                ctx.disagree('L1', case, {'n': len(impl[1]['items'] or []), 'first_differences': diff}, {'n': len(m_items)},
+                             'raw: the tree the document holds vs convertRoot')
+            mp = model[1]['parsed']
+            ip = impl[1]['parsed']
+            if ip is not None:
+                if ('ok' in mp) != (ip[0] == 'ok'):
+                    ctx.disagree('L0', case, ip[0], mp, 'raw: parsing the written document, ok-vs-error')
+                elif ip[0] == 'ok' and ip[1] != [sorted(x) for x in mp['ok']['items']]:
+                    diff = [(a, b) for a, b in itertools.zip_longest(ip[1], [sorted(x) for x in mp['ok']['items']]) if a != b][:2]
+                    ctx.disagree('L1', case, {'first_differences': diff}, None, 'raw: the parsed tree vs parseDoc')
+            continue
         if impl[0] != model[0]:
             ctx.disagree('L0', case, impl, model, f'{kind}: ok-vs-error')
         elif impl[0] == 'err' and impl[1] is not None and impl[1] != model[1]:
@@ -1391,6 +1654,8 @@ def run(ctx):
                           + (' (quick tier: classes in turn)' if ctx.tier == 'quick' else ''))
     for idx in range(ctx.n(700, 6000)):
         _check_doc(ctx, _doc_case(ctx, idx), reqs, pending)
+    for idx in range(ctx.n(160, 2500)):
+        _check_raw(ctx, _raw_case(ctx, idx), reqs, pending)
     for idx in range(ctx.n(300, 2500)):
         _check_ko(ctx, _ko_case(ctx, idx), reqs, pending)
     for idx in range(ctx.n(450, 4000)):
@@ -1494,6 +1759,8 @@ def _run_one(ctx, case, reqs, pending):
                 _check_doc(ctx, c, reqs, pending)
     elif s == 'doc':
         _check_doc(ctx, _doc_case(ctx, case['idx']), reqs, pending)
+    elif s == 'raw':
+        _check_raw(ctx, _raw_case(ctx, case['idx']), reqs, pending)
     elif s == 'ko':
         _check_ko(ctx, _ko_case(ctx, case['idx']), reqs, pending)
     elif s == 'seg':
